@@ -1,6 +1,7 @@
 package main
 
 import (
+	"errors"
 	"fmt"
 	"os"
 	"strings"
@@ -15,7 +16,7 @@ import (
 
 // A diode scenario: P producers x W writes each through diode.NewWriter of ring size N.
 //
-//	name = P<p>W<w>N<n>/<waiter|poller>/<normal|block1|block2>/<close|noclose|fatal>
+//	name = P<p>W<w>N<n>/<waiter|poller>/<normal|block1|block2|err1|err2>/<close|noclose|fatal|fatal2|closeearly>
 type params struct {
 	P, W, N int
 	Mode    string // waiter | poller
@@ -55,11 +56,11 @@ type inst struct {
 	prodDone        []bool
 	closeRet        bool
 	closeCalledStep int
-	wcalls     int
-	mon        uint64
-	deliveredB []string // second diode writer of the fatal2 scenarios
-	called     int      // Writes called so far
-	maxOut     int      // largest number of messages ever outstanding (written, delivery not begun)
+	wcalls          int
+	mon             uint64
+	deliveredB      []string // second diode writer of the fatal2 scenarios
+	called          int      // Writes called so far
+	maxOut          int      // largest number of messages ever outstanding (written, delivery not begun)
 }
 
 type recWriterB struct{ in *inst }
@@ -100,8 +101,14 @@ func (r recWriter) Write(b []byte) (int, error) {
 	}
 	in.inWrite--
 	in.bump(3, "")
+	if (in.p.Rec == "err1" && in.wcalls == 1) || (in.p.Rec == "err2" && in.wcalls == 2) {
+		// the destination took the buffer and reports a failure: that delivery still counts as the one delivery
+		return 0, errDest
+	}
 	return len(b), nil
 }
+
+var errDest = errors.New("destination failed")
 
 func newInst(p params) *inst {
 	in := &inst{p: p, callStep: map[string]int{}, retStep: map[string]int{}, prodDone: make([]bool, p.P)}
@@ -120,6 +127,7 @@ func bigBuf(p int) []byte {
 	}
 	return bigBufs[p%8][:0]
 }
+
 var prodNames = []string{"prod0", "prod1", "prod2", "prod3", "prod4", "prod5"}
 
 func (in *inst) Body() {
@@ -182,13 +190,21 @@ func (in *inst) Body() {
 			in.bump(6+uint64(pi)*16, "")
 		})
 	}
+	if p.End == "closeearly" {
+		// Close racing with the Writes (a shutdown path that does not wait for the producers)
+		mcrt.GoNamed("closer", false, func() {
+			dw.Close()
+			in.closeRet = true
+			in.bump(7, "")
+		})
+	}
 	mcrt.Block("join", nil, func() bool {
 		for _, d := range in.prodDone {
 			if !d {
 				return false
 			}
 		}
-		return true
+		return p.End != "closeearly" || in.closeRet
 	})
 	switch p.End {
 	case "close":
@@ -411,13 +427,13 @@ func (in *inst) Check(res *mcrt.Result) []explore.Violation {
 		holeSig = "diode-hole-stall"
 	}
 
-	blockedRec := p.Rec != "normal"
+	blockedRec := p.Rec == "block1" || p.Rec == "block2"
 	// ---- C11: after Close returned (or on the Fatal path at Exit) nothing is lost silently ----
 	closed := in.closeRet || ((p.End == "fatal" || p.End == "fatal2") && res.Exited)
 	if p.End == "fatal2" && res.Exited && len(in.deliveredB) != 1 {
 		add("C11", "", "Fatal through MultiLevelWriter(diodeA, diodeB): the second diode delivered %d events before exit, want the fatal event (1)", len(in.deliveredB))
 	}
-	if closed && !blockedRec {
+	if closed && !blockedRec && p.End != "closeearly" { // (the accounting clause is about a Close called after the last Write returned)
 		if len(in.delivered)+sumAlerts < len(in.written) {
 			add("C11", holeSig, "lost silently: written=%d delivered=%d alerts=%v collisions=%d (read index %d, hole there=%v, %d published messages behind it)",
 				len(in.written), len(in.delivered), in.alerts, collisions, r, holeAtR, behind)
@@ -445,7 +461,7 @@ func (in *inst) Check(res *mcrt.Result) []explore.Violation {
 				add("C12", sig, "stuck: all Writes returned, no thread can run, but written=%d delivered=%d alerts=%v (consumer blocked on %v)",
 					len(in.written), len(in.delivered), in.alerts, res.BlockedOn)
 			}
-		case "close", "fatal", "fatal2":
+		case "close", "fatal", "fatal2", "closeearly":
 			if res.Deadlock || (!in.closeRet && !res.Exited) {
 				add("C12", "", "Close did not return: deadlock=%v blocked=%v on %v", res.Deadlock, res.Blocked, res.BlockedOn)
 			}
